@@ -706,7 +706,17 @@ fn render_module(t: &Tree, m: usize) -> String {
         let _ = writeln!(s, "const {k}: i32 = {v};");
     }
     if md.has_type {
-        let _ = writeln!(s, "enum Color {{ Red, Green }}");
+        // a variant may hold the same-named type of a child module: two types of one name in two modules,
+        // one inside the other, are not a cycle
+        match md.children.iter().find(|c| t.mods[**c].has_type) {
+            Some(c) => {
+                let cn = &t.mods[*c].name;
+                let _ = writeln!(s, "enum Color {{ Red, Green, Deep({cn}.Color) }}\nfn color_depth() -> i32 {{ match Color.Deep({cn}.Color.Green) {{ Deep(zc) => 1, _ => 0 }} }}");
+            }
+            None => {
+                let _ = writeln!(s, "enum Color {{ Red, Green }}");
+            }
+        }
     }
     for (i, p) in t.probes.iter().enumerate() {
         if p.module != m {
